@@ -61,7 +61,7 @@ pub fn batch(seed: u64, index: u64) -> (u32, Vec<u32>) {
 
 pub fn execute(m: u32, scripts: &[u32], seed: u64, with_sub: bool) -> W {
     let ctx = Ctx::new_opts(ScriptSrc::Verdicts, 1, seed, 0, false, true);
-    let w = W::new(ctx, vec![StoreCfg { policy: POL_BLOCK, cap: 16, n_red: N_RED, n_mw: m, name: "rsvf".into() }]);
+    let w = W::new(ctx, vec![StoreCfg { policy: POL_BLOCK, cap: 16, n_red: N_RED, n_mw: m, name: "rsvf".into(), ctor: 0 }]);
     // a store without any subscriber must still run the before_dispatch hooks
     let keep = if with_sub { Some(w.add_direct(0, NOGATE, false, true, false)) } else { None };
     let mut exp_runs = 0u64;
